@@ -170,7 +170,7 @@ func c17hRecords(h *Handler) int {
 func TestVerif_C17_Handler(t *testing.T) {
 	r := verifkit.Start(t, "C17", "forward-handler")
 	r.Rule("history = 4..24 tunnel opens (sequential or concurrent) on one real forward.Handler, each with a PRNG script: peer close / reset handled while the open acknowledgement or the first data frame is being written, failing acknowledgement or data writes, silent / banner / hanging-up targets; " +
-		"then every tunnel is closed or reset by the peer; within a bounded wait the handler must hold 0 connection records, ConnectionCount()==0, 0 sockets to the targets, and accept MaxConnections new tunnels; " +
+		"then every tunnel the peer has not closed yet is closed or reset by it (never twice); within a bounded wait the handler must hold 0 connection records, ConnectionCount()==0, 0 sockets to the targets, and accept MaxConnections new tunnels; " +
 		"non-trivial = history in which >= 1 tunnel was acknowledged and >= 1 peer event was handled inside a write; distinct by scripts")
 	modes := []string{"silent", "banner", "banner-close", "close"}
 	targets := map[string]*c17hTarget{}
@@ -277,6 +277,10 @@ func TestVerif_C17_Handler(t *testing.T) {
 			order[i], order[j] = order[j], order[i]
 		}
 		for _, i := range order {
+			// a peer does not close a tunnel twice, nor one it never saw acknowledged
+			if sc := scripts[i]; sc.AtAck != "" || sc.AtData == "close" {
+				continue
+			}
 			p := peers[i%len(peers)]
 			if scripts[i].End == "reset" {
 				h.HandleStreamReset(p, ids[i], 2)
